@@ -292,10 +292,20 @@ Error CodeHolder::reinit() noexcept {
   }
   CodeHolder_add_text_section(this);
 
+  Error reinit_err = Error::kOk;
   BaseEmitter* emitter = _attached_first;
   while (emitter) {
-    emitter->on_reinit(*this);
+    Error emitter_err = emitter->on_reinit(*this);
+    if (ASMJIT_UNLIKELY(emitter_err != Error::kOk && reinit_err == Error::kOk)) {
+      reinit_err = emitter_err;
+    }
     emitter = emitter->_attached_next;
+  }
+
+  if (ASMJIT_UNLIKELY(reinit_err != Error::kOk)) {
+    // An emitter couldn't be reinitialized (out of memory) - detach everything and leave the holder uninitialized.
+    reset(ResetPolicy::kSoft);
+    return reinit_err;
   }
 
   return Error::kOk;
